@@ -14,6 +14,7 @@ import itertools
 from .core import MachineryError
 
 TAB = "\t"
+BS = "\\"
 TEXT = {   # line kind -> text after the margin ({i} = statement number); string-content lines are verbatim
     "a": "v{i} = {i}", "sh": "v{i} = 'a#b'", "s3s": "v{i} = \"x'''y\"", "s3d": "v{i} = '\"\"\"'",
     "esc": "v{i} = 'it\\'s \"q\" # no'", "tab": "v{i} = 'a" + TAB + "b'", "c": "# plain comment", "c3": "# says ''' here",
@@ -26,6 +27,13 @@ TEXT = {   # line kind -> text after the margin ({i} = statement number); string
     "xd": "   mid", "xod": "  a'''b", "xhd": "  # not a comment", "xbd": "", "xbsd": "  tail \\",
     "zd": "      u2\"\"\"", "zcd": "  u2\"\"\" + 'x#y'", "zmd": "  u2\"\"\"  # c '''", "zod": "  u2\"\"\" + '''r1",
     "q2": "   q'",
+    # runs of backslashes at the end of a physical line (BS = one backslash character)
+    "osq3": "v{i} = 'C:" + BS * 2 + "d" + BS * 3, "odq": "v{i} = \"p" + BS, "odq3": "v{i} = \"C:" + BS * 2 + "d" + BS * 3,
+    "sb2": "v{i} = 'p" + BS * 2 + "'", "cb1": "# path C:" + BS, "cb2": "# path C:" + BS * 2, "cb3": "# path C:" + BS * 3,
+    "tcb1": "v{i} = 3  # c " + BS,
+    "xb2s": "  tail " + BS * 2, "xb3s": "  tail " + BS * 3, "xb4s": "  tail " + BS * 4,
+    "xb2d": "  tail " + BS * 2, "xb3d": "  tail " + BS * 3, "xb4d": "  tail " + BS * 4,
+    "qc1": "   mid" + BS, "qc3": "   m" + BS * 3, "q2d": "    file.txt\"", "qd1": "   mid" + BS,
 }
 MARGINS = [" " * n for n in range(13)] + [TAB, TAB + TAB]
 
@@ -39,8 +47,11 @@ for _f, _ks in {
     "other-triple-quote-inside-triple-string": "xos xod",
     "hash-inside-triple-string": "xhs xhd",
     "backslash-eol-inside-triple-string": "xbss xbsd",
+    "backslash-run-eol-inside-triple-string": "xb2s xb3s xb4s xb2d xb3d xb4d",
+    "escaped-backslash-before-newline-inside-quoted-string": "osq3 odq3 qc3",
+    "comment-ending-in-backslash": "cb1 cb2 cb3 tcb1",
     "literal-tab-in-string": "tab",
-    "backslash-newline-inside-quoted-string": "osq",
+    "backslash-newline-inside-quoted-string": "osq odq qc1 qd1",
 }.items():
     for _k in _ks.split():
         FEATURE[_k] = _f
@@ -174,7 +185,7 @@ def part_remargin(run):
         for i in range(len(sub)):
             if sub[i] not in FEATURE:
                 continue
-            for plain in ("a", "o3s", "zs", "zd", "xs", "xd"):
+            for plain in ("a", "c", "o3s", "zs", "zd", "xs", "xd"):
                 cand = tuple(sub[:i] + [plain] + sub[i + 1:])
                 if cand in cases and outcome(cand, margin, ind, path) != "ok":
                     sub = list(cand)
@@ -193,11 +204,14 @@ def part_remargin(run):
             if wrapped != ref or not isinstance(ref, dict):
                 raise MachineryError("Remargin.tla flags are wrong for %s (CPython: as written %r, reference %r)\n%s" % (key, wrapped, ref, w))
     sample_render = set(run.rng.sample(keys, min(len(keys), 2500 if run.thorough else 500)))
+    # every short block with a backslash run at an end of line goes through full renders at every margin
+    BSKINDS = {k for k, t in TEXT.items() if t.endswith(BS)}
+    bs_blocks = {k for k in keys if len(k) <= 2 and BSKINDS & set(k)}
     for key in keys:
         for margin in MARGINS:
             ind = (len(margin) + len(key)) % 2 == 1
             paths = ["adjust"]
-            if key in sample_render and margin in ("", "    ", TAB, " " * 7):
+            if (key in sample_render and margin in ("", "    ", TAB, " " * 7)) or key in bs_blocks:
                 paths += ["render", "render-module"]
             for path in paths:
                 r = outcome(key, margin, ind, path)
